@@ -78,7 +78,12 @@ var S = &Sched{}
 
 var epoch = rtime.Unix(1_000_000_000, 0)
 
+// execEpoch counts executions; shim state that lives in package-level variables of the code under test (sync.Pool
+// contents) is scoped to one execution through it, so that no execution inherits objects from an earlier one.
+var execEpoch int64
+
 func (s *Sched) reset(prefix []int) {
+	execEpoch++
 	logOn := s.LogOn
 	max := s.MaxSteps
 	*s = Sched{prefix: prefix, endCh: make(chan struct{}, 4), MaxSteps: max, chans: map[uintptr]*chanState{}, Active: true,
